@@ -323,11 +323,11 @@ func runSchedule(tw *tracefmt.Writer, st *stats, n int, s schedule, step time.Du
 		_ = r.far.Close()
 	} else {
 		r.finish()
+		for _, e := range c.Log {
+			st.GateArrival[e[indexAt(e):]]++
+		}
 	}
 	st.WireSeen += r.wireN
-	for _, e := range c.Log {
-		st.GateArrival[e[indexAt(e):]]++
-	}
 	if len(st.Samples) < 3 {
 		st.Samples = append(st.Samples, map[string]any{"prog": s.Prog, "sops": s.Sops, "sched": s.Sched, "steps": steps})
 	}
@@ -358,7 +358,7 @@ func runScenarios(tw *tracefmt.Writer, st *stats) {
 		"mixed-api": {{"enter", 0}, {"P", 2}, {"enterOut", 0}, {"P", 1}, {"leaveOut", 0}, {"sync", 0},
 			{"enterOut", 0}, {"P", 2}, {"leave", 0}, {"sync", 0}},
 		// 1024 held, the 1025th closes the connection and later writes fail
-		"overflow": {{"K", 1}, {"enter", 0}, {"P", 1024}, {"sync", 0}, {"P", 1}, {"K", 1}, {"P", 1}},
+		"overflow":        {{"K", 1}, {"enter", 0}, {"P", 1024}, {"sync", 0}, {"P", 1}, {"K", 1}, {"P", 1}},
 		"full-then-leave": {{"enter", 0}, {"P", 1024}, {"leave", 0}, {"sync", 0}, {"enter", 0}, {"P", 3}, {"leave", 0}, {"sync", 0}},
 	}
 	var names []string
